@@ -1,7 +1,7 @@
 SPECIFICATION Spec
 CONSTANTS
   MaxPool = 3
-  Strategies = {"rr"}
+  Strategies = {"rr", "fanout", "random"}
   Keys = {"-"}
   Pools = {1, 2, 3}
   Presets = {0, 1, 2, 3, 4, 5, 6, 7}
@@ -11,6 +11,6 @@ CONSTANTS
   H = 1
   VTabs <- NoVTab
   KTabs <- NoKTab
-  Defects = {"WrapIndex"}
+  Defects = {}
 INVARIANTS TypeOK AliveInMap
 PROPERTIES NoDrop RoundRobin FanOut Sticky
